@@ -15,6 +15,14 @@ CHECKS = {
    "Exception sets (every lexer rule, grammar action, t_error, p_error returns or raises a ParseError on every path; numeric conversions modelled by documented contracts of Decimal/int and decided as regular-language inclusions), write frames (no module, class or singleton state is written on any path), the tracker reset (the first token never reads the previous tracker) and the forwarding of both entry points are proved for all symbolic inputs; PLY's own statefulness is assumed and audited by a BOUNDED call-sequence check.",
    "A1-A10, in particular A8 (PLY never returns partial values once p_error/t_error raise; parser stacks are locals) and A4 (Decimal/int accept exactly the documented numeric strings).",
    "contract-based deductive verification: exception-set, frame and read-frame obligations on the real functions (z3, regex inclusions); bounded call sequences as audit of the PLY assumption"),
+ "C08": ("proof", "3.C08",
+   "Dispatch is decided exhaustively on the finite table (every node class x every subset of handler names along its MRO, two instances, cache hits, interleaved visitor classes); the traversal trace (node first, each child once in order, fresh child contexts carrying the true ancestor chain and index path, caller's context untouched) and the Copy relation of the default transformers (same type, equal, same text and positions, fresh nodes, input untouched) are proved per node class with abstract children, for all attribute values and any number of operands (runs), by running the real generic_visit / clone_children / child_context under CPython; structural induction (L-IND) lifts them to all trees.",
+   "A1-A10; L-IND is a paper lemma; loops over operand runs are shown stateless syntactically (uniform-loop obligation); user-defined node classes are out of scope (A7).",
+   "contract-based deductive verification: per-class trace / Copy contracts on the real visitor code with stubbed sub-term visits (modular induction), exhaustive finite dispatch table"),
+ "C09": ("proof", "3.C09",
+   "For every ordered pair of node classes (operand shapes 0, 1, 2, 2+run; implicit/explicit numerals) the real Item.__eq__ is run with layout and names poisoned and returns, on every path, exactly FP(self) = FP(other) where FP is an algebraic-datatype fingerprint built from the meaning-bearing attributes listed in the property statement (independent of _equality_attrs); reflexivity, symmetry and transitivity follow from term equality. clone_item is proved per class (type, content, layout, placeholder children, equal to and printing like the original once given the children's copies).",
+   "A1-A10; numeric attributes compared as real numbers (Decimal/int equality is numeric); L-IND / L-Z paper and Lean lemmas.",
+   "contract-based deductive verification: per-class-pair equality obligations against an ADT fingerprint in z3 (datatypes + sequences), read-frame by poisoning"),
 }
 PENDING = {
 }
@@ -44,7 +52,7 @@ def main():
         "setup_cmd": "./setup.sh",
         "hooks": {"guard": "LUQUM_VERIF", "enable": "none needed: the loader reads /repo's working tree and instruments it in memory; no source hooks exist in /repo",
                   "baseline_off_cmd": "cd /repo && /venv/bin/python -m pytest -ra -q -p no:cacheprovider",
-                  "source_commits": ["b51bf59", "eaf23e2"], "add_only": True},
+                  "source_commits": ["b51bf59", "eaf23e2", "9e0facc"], "add_only": True},
         "engines": [{"name": "symx", "path": "vfkit/", "serves_properties": sorted(CHECKS),
                      "kind_free_text": "verification-condition generator: shadow symbolic execution of the real luqum functions under CPython with z3-term proxies (AST redirects listed in every evidence file), sidecar contracts in contracts/, obligations discharged by z3 5.1 with cvc5 as second opinion; bounded stand-ins run the unmodified code natively"}],
         "checks": checks,
